@@ -159,7 +159,7 @@ impl Monitor for C17 {
         vec![("loops", tier.pick(240_000, 4_800_000)), ("several", tier.pick(60_000, 1_200_000))]
     }
     fn rule(&self) -> &'static str {
-        "case i -> accumulation (i mod 5), input skips (i/5 mod 2), iterations k = 1 + (i/10 mod 4), representation (i/40 mod 3: dense range / spatial range of 'same' convolutions, deconvolutions, 1x1 pools and deconvolution+max-pool pairs / the same followed by a dense layer so that the loop output is flattened), the network's skip accumulation (i/7 mod 5, set although it only concerns skip connections), position of the range (start / middle / end) and its length 1..3 random, every sixth network additionally has an additive skip connection outside the looped range or into its first layer, every fifth has layers outside the range wrapped into feedback blocks; predict is compared with the reference (o_0 = first output of layer b, o_t = f_{a..b}(o_{t-1} [+ input of a]), passed on = combine(o_0; o_1..o_k)) within the running f32 bound; for overwrite without input skips additionally bit-exact against a plain library network in which layers a..b are physically repeated k+1 times with the same weights. several: chains of 4..8 layers with two or three loop connections over pairwise disjoint ranges (every third case: ranges in any arrangement - nested, overlapping, sharing a start - without input skips) (own iteration counts and input-skip flags, one shared accumulation), same oracle; for overwrite without input skips the network with every range physically repeated. Distinct = distinct configuration descriptors."
+        "case i -> accumulation (i mod 5), input skips (i/5 mod 2), iterations k = 1 + (i/10 mod 4), representation (i/40 mod 4: dense range / spatial range of 'same' convolutions, deconvolutions, 1x1 pools and deconvolution+max-pool pairs / the same followed by a dense layer so that the loop output is flattened / mixed chain on r*r elements where spatial layers follow dense layers, so that a looped range may begin with a spatial layer that is fed a flat tensor), the network's skip accumulation (i/7 mod 5, set although it only concerns skip connections), position of the range (start / middle / end) and its length 1..3 random, every sixth network additionally has an additive skip connection outside the looped range or into its first layer, every fifth has layers outside the range wrapped into feedback blocks; predict is compared with the reference (o_0 = first output of layer b, o_t = f_{a..b}(o_{t-1} [+ input of a]), passed on = combine(o_0; o_1..o_k)) within the running f32 bound; for overwrite without input skips additionally bit-exact against a plain library network in which layers a..b are physically repeated k+1 times with the same weights. several: chains of 4..8 layers with two or three loop connections over pairwise disjoint ranges (every third case: ranges in any arrangement - nested, overlapping, sharing a start - without input skips) (own iteration counts and input-skip flags, one shared accumulation), same oracle; for overwrite without input skips the network with every range physically repeated. Distinct = distinct configuration descriptors."
     }
     fn assumptions(&self) -> Vec<&'static str> {
         vec!["reference loop semantics written from the property statement (refmodel::RNet::forward)", "skip connections in the generated networks end outside the looped range or at its first layer (whose accumulated input is then what the loop's input skip adds)"]
@@ -172,13 +172,17 @@ impl Monitor for C17 {
         let acc = ACCS[(idx % 5) as usize];
         let inskips = (idx / 5) % 2 == 1;
         let iters = 1 + ((idx / 10) % 4) as usize;
-        let rep = ((idx / 40) % 3) as usize;
+        // representation: dense chain / spatial chain / spatial chain flattened into a dense layer /
+        // mixed chain on r*r elements in which spatial layers follow dense layers (a looped range
+        // may then begin with a spatial layer that is fed a flat tensor)
+        let rep = ((idx / 40) % 4) as usize;
         let acts = [Act::Tanh, Act::Sigmoid, Act::Linear, Act::Leaky, Act::Relu];
         let depth = rng.range(2, 5);
         let (kind, end_dense) = match rep {
             0 => (0, rng.bool()),
             1 => (1, false),
-            _ => (1, true),
+            2 => (1, true),
+            _ => (2, rng.bool()),
         };
         let mut cfg = chain(&mut rng, kind, depth, &acts, true, end_dense);
         // choose a range [a, b] of the equal-shape part whose output shape equals the input shape of a
@@ -258,7 +262,14 @@ impl Monitor for C17 {
         let flattened = shapes[b].2;
         let has_pool = (a..=b).any(|i| matches!(cfg.layers[i], LCfg::Pool { .. }));
         out.key = cfg.describe();
-        out.cover("grid", format!("{} skips{} k{} {}", acc.name(), inskips, iters, if rep == 0 { "dense" } else if flattened { "spatial-flattened" } else { "spatial" }));
+        if rep == 3 {
+            out.count("loops_in_mixed_flat_spatial_chains", 1);
+            if !shapes[a].0.is_flat() && (a == 0 || shapes[a - 1].1.is_flat() || shapes[a - 1].2) {
+                out.count("looped_ranges_beginning_with_a_spatial_layer_fed_a_flat_tensor", 1);
+            }
+        } else {
+            out.cover("grid", format!("{} skips{} k{} {}", acc.name(), inskips, iters, if rep == 0 { "dense" } else if flattened { "spatial-flattened" } else { "spatial" }));
+        }
         out.cover("range", format!("a{} b{} of {}", a, b, cfg.layers.len()));
         if has_pool {
             out.count("ranges_containing_max_pool", 1);
